@@ -84,7 +84,7 @@ func (fv *FV) assumeSpecG(st *State, e *Expr, env *Env, guard string, depth int)
 		fv.assumeSpecG(st, e.Args[1], env.with(e.Name, d), guard, depth+1)
 		return
 	case e.Op == "forall":
-		if !(e.Args[0].Op == "int" && e.Args[1].Op == "int") {
+		if !smallConstRange(e) {
 			lo := fv.evalSpec(e.Args[0], env)
 			hi := fv.evalSpec(e.Args[1], env)
 			fv.nfresh++
@@ -130,7 +130,7 @@ func (fv *FV) evalGoal(st *State, e *Expr, env *Env, depth int) string {
 		d := fv.evalSpec(e.Args[0], env)
 		return fv.evalGoal(st, e.Args[1], env.with(e.Name, d), depth+1)
 	case e.Op == "forall":
-		if !(e.Args[0].Op == "int" && e.Args[1].Op == "int") {
+		if !smallConstRange(e) {
 			lo := fv.evalSpec(e.Args[0], env)
 			hi := fv.evalSpec(e.Args[1], env)
 			sk := fv.fresh("sk_"+e.Name, "Int")
@@ -212,7 +212,7 @@ func (fv *FV) collectQ(tmp *State, e *Expr, env *Env, guard string, depth int) {
 			fv.collectQ(tmp, b, env, guard, depth+1)
 		}
 	case e.Op == "forall":
-		if !(e.Args[0].Op == "int" && e.Args[1].Op == "int") {
+		if !smallConstRange(e) {
 			lo := fv.evalSpec(e.Args[0], env)
 			hi := fv.evalSpec(e.Args[1], env)
 			fv.nfresh++
@@ -241,7 +241,7 @@ func (fv *FV) skolemAntecedent(st *State, e *Expr, env *Env, depth int) string {
 			return fv.skolemAntecedent(st, b, env, depth+1)
 		}
 	case e.Op == "forall":
-		if !(e.Args[0].Op == "int" && e.Args[1].Op == "int") {
+		if !smallConstRange(e) {
 			lo := fv.evalSpec(e.Args[0], env)
 			hi := fv.evalSpec(e.Args[1], env)
 			sk := fv.fresh("wit_"+e.Name, "Int")
